@@ -99,16 +99,20 @@ func pickID(class string, rng *rand.Rand) *big.Int {
 	return new(big.Int).Add(new(big.Int).Lsh(big.NewInt(1), 53), big.NewInt(int64(1+rng.Intn(1000))))
 }
 
+// account addresses of every lexical form an address may take: segments, digits only, leading zeros, one letter, long
+var addressPool = []string{"users:001", "4242", "007", "a", "users:001:main-x_1", "x" + strings.Repeat("y", 60), "0", "order:1-2"}
+
 func build(e entry, rng *rand.Rand) *ledger.Log {
 	ts := pickTime(e.Time, rng)
+	acct := addressPool[rng.Intn(len(addressPool))]
 	// the date of a log entry is always produced by the engine (ledger.Now(): UTC, microseconds);
 	// the timestamp of a transaction is whatever the API accepted
 	logDate := ts.UTC()
 	var l *ledger.Log
 	mkTx := func(id *big.Int) *ledger.Transaction {
 		tx := ledger.NewTransaction().WithPostings(
-			ledger.NewPosting("world", "users:001", "USD/2", pickAmount(e.Amount, rng)),
-			ledger.NewPosting("users:001", "bank", "COIN", pickAmount(e.Amount, rng)),
+			ledger.NewPosting("world", acct, "USD/2", pickAmount(e.Amount, rng)),
+			ledger.NewPosting(acct, "bank", "COIN", pickAmount(e.Amount, rng)),
 		).WithDate(ts).WithReference(pickKey(e.Key, rng))
 		tx.ID = id
 		tx.Metadata = pickMeta(e.Meta, rng)
@@ -118,17 +122,17 @@ func build(e entry, rng *rand.Rand) *ledger.Log {
 	case "NEW_TRANSACTION":
 		am := map[string]metadata.Metadata{}
 		if e.Meta != "empty" {
-			am["users:001"] = pickMeta(e.Meta, rng)
+			am[acct] = pickMeta(e.Meta, rng)
 		}
 		l = ledger.NewTransactionLogWithDate(mkTx(big.NewInt(int64(rng.Intn(1000)))), am, logDate)
 	case "REVERTED_TRANSACTION":
 		l = ledger.NewRevertedTransactionLog(logDate, pickID(e.ID, rng), mkTx(big.NewInt(int64(rng.Intn(1000)))))
 	case "SET_METADATA/ACCOUNT":
-		l = ledger.NewSetMetadataOnAccountLog(logDate, "users:001", pickMeta(e.Meta, rng))
+		l = ledger.NewSetMetadataOnAccountLog(logDate, acct, pickMeta(e.Meta, rng))
 	case "SET_METADATA/TRANSACTION":
 		l = ledger.NewSetMetadataOnTransactionLog(logDate, pickID(e.ID, rng), pickMeta(e.Meta, rng))
 	case "DELETE_METADATA/ACCOUNT":
-		l = ledger.NewDeleteMetadataLog(logDate, ledger.DeleteMetadataLogPayload{TargetType: ledger.MetaTargetTypeAccount, TargetID: "users:001", Key: "some key"})
+		l = ledger.NewDeleteMetadataLog(logDate, ledger.DeleteMetadataLogPayload{TargetType: ledger.MetaTargetTypeAccount, TargetID: acct, Key: "some key"})
 	case "DELETE_METADATA/TRANSACTION":
 		l = ledger.NewDeleteMetadataLog(logDate, ledger.DeleteMetadataLogPayload{TargetType: ledger.MetaTargetTypeTransaction, TargetID: pickID(e.ID, rng), Key: "k"})
 	}
